@@ -64,6 +64,8 @@ package anyutil
 //@   mode int
 //@   ensures[message-or-error] result1 == nil ==> result0 != nil
 //@   ensures[error-gives-nil] result1 != nil ==> result0 == nil
+//@   ensures[type-url-is-slash-fullname] result1 == nil ==> result0.TypeUrl == "/" + string(src.ProtoReflect().Descriptor().FullName())
+//@   ensures[nil-source-is-an-error] src == nil ==> result1 != nil
 
 //@ func Unpack
 //@   property C16
